@@ -87,6 +87,52 @@ CLAIMS = {
          "different operation schedules, operations targeted BEFORE their result type exists, repeats, common final block; checked by "
          "value against the history-independent expectation.",
          "6 C17", NOTE),
+ "C08": ("Lean 4 proof (no implicit factor between currencies; registration against any table; kernel-decided facts about the translated ISO table) + exhaustive correspondence over the whole table",
+         "Theorems (Props/C08.lean): with no converter active, +, -, /, the four orderings and convert between two distinct currencies raise "
+         "UnitConversionError, == is False, money*money is undefined, for all amounts; registration against ANY table is idempotent (same unit, "
+         "state unchanged), rejects unknown codes without a trace, and yields smallest fraction 10^-minor; Gen/Iso4217.lean (the harness's own "
+         "reading of iso_4217.xml, regenerated every run): 167 distinct 3-letter codes, minor units in {0,2,3,4}; the validation table of user "
+         "currencies; rejected currency declarations leave no trace. That currencies.py reads the same table is validated EXHAUSTIVELY on every "
+         "run (every entry registered, read back, registered again) — translation validation, not proof.",
+         "6 C08", NOTE),
+ "C09": ("Lean 4 proof (normal form and accuracy of every accepted rate from the proved rounding spec; rejection table; inversion; triangulation directions) + differential correspondence",
+         "Theorems (Props/C09.lean): every accepted rate stores a power-of-ten multiple >= 1 and a term amount with <= 6 fractional digits that "
+         "differs from true rate x multiple by < 1e-6 (<= 0.5e-6 under half modes), for ALL inputs and all 8 modes; the rejection table; rate x "
+         "inverse = 1; inversion swaps currencies and is the constructor applied to the exact reciprocal; the four triangulation patterns give "
+         "the documented direction, no shared currency is rejected. Partial: 'magnitude >= -1' is false for non-power-of-ten multiples (known "
+         "finding D7, negation proved); float log10 near powers of ten is runtime behaviour outside the model.",
+         "6 C09", NOTE),
+ "C10": ("Lean 4 proof (money x rate = exact product rounded once; price units: resolved unit worth exactly unit x term/unit currency under every admissible valuation) + differential correspondence with a value-based oracle",
+         "Theorems (Props/C10.lean): money*rate / rate*money / money/rate give money in the right currency with the exact product (inverse) "
+         "rounded once to that currency's fraction, a non-matching currency is ValueError; for prices the resolved (factor, unit) is worth "
+         "exactly the price's unit with the currency replaced, the amount is f*rate*a constructed once, an undeclared target or a target of "
+         "another type is QuantityError. Correspondence: several money-per-X types, declared / missing / differently scaled targets, all 8 modes.",
+         "6 C10", NOTE),
+ "C11": ("Lean 4 proof (converter state = log of accepted entries; lookup = most recent entry of the date's period; rejected updates change nothing; lookup shapes) + differential correspondence on update/lookup histories",
+         "Theorems (Props/C11.lean): a rejected update (invalid period, other kind, any invalid spec) leaves the converter unchanged; an accepted "
+         "one appends its rates under the normalised period; the stored rate for a date is the MOST RECENT entry whose key is (period of the "
+         "date, currency) — entries of other periods/currencies never matter (proved for all histories); from-base / towards-base (inverted) / "
+         "cross (quotient of base rates) / missing (None) shapes; call = amount x rate; spellings of a period agree; invalid periods rejected. "
+         "Partial: 'one for a currency and itself' is false of the code (known finding D8, proved).",
+         "6 C11", NOTE),
+ "C12": ("Lean 4 proof (stack discipline; induction over well-nested programs with exceptional exits) + differential correspondence on operation sequences",
+         "Theorems (Props/C12.lean): removing the top converter undoes its registration; removing any other raises and changes nothing; empty stack "
+         "IndexError; conversions consult the top; for EVERY well-nested program of with-blocks (normal or exceptional exit anywhere) the stack "
+         "after equals the stack before (induction on the nesting); generic types: idempotent registration, removal restores. Correspondence: "
+         "random sequences over 4 converters incl. the same converter entered twice with another in between; thorough: all sequences <= 4.",
+         "6 C12", NOTE),
+ "C14": ("Lean 4 proof (table lookup rule, round trips, composition; kernel-decided consistency and fixed points of the translated temperature table) + differential correspondence",
+         "Theorems (Props/C14.lean): direct row => a*f+o, only the opposite row => (a-o)/f, neither => no answer; last row wins; one-direction "
+         "tables round-trip identically and two-direction tables do iff the rows are inverse, via-third-unit equals direct iff the rows compose "
+         "— for ALL amounts; Gen/TempTable.lean (regenerated from predefined.py): all six rows pairwise inverse and composing, complete, and the "
+         "fixed points 0 degC = 273.15 K = 32 degF, -40 = -40, 0 K = -459.67 degF. Correspondence: temperature and random user tables.",
+         "6 C14", NOTE),
+ "C19": ("Lean 4 proof (equal quantities of a type with reference unit have equal hash keys; terms; rates use the quotation for both) + differential correspondence on equal-by-construction pairs",
+         "Theorems (Props/C19.lean): for quantities of a type with reference unit, a == b implies equal hash keys whatever the units and "
+         "representations (after the fix: commit); equal terms have equal hash keys; exchange rates hash what they compare. Partial (known "
+         "findings, negations proved): same-scale units hash by symbol (D13u); converter-based equality of reference-less types cannot be "
+         "hash-consistent (D13c). Python's hash of equal numbers/tuples is trusted.",
+         "6 C19", NOTE),
 }
 
 def main():
